@@ -118,6 +118,10 @@ exactly `table_size` bytes, whatever the seeks/reads return -/
 theorem read_table_safe (ts : UInt64) (stepOk : Nat → Bool) : ∀ a ∈ (readTable ts stepOk).2, a.inBounds :=
   readTable_safe ts stepOk
 
+/-- the copy loop of `sqfs_read_table` ends after `block_count` iterations -/
+theorem read_table_terminates (ts : UInt64) (stepOk : Nat → Bool) : (readTable ts stepOk).1 ≠ .error .fuel :=
+  readTable_no_fuel ts stepOk
+
 /-! ## `read_inode.c`: allocation size vs bytes written -/
 
 theorem read_inode_file_safe (fileSize blockSize : UInt64) (fragIdx fragOff : UInt32) (as : List Access)
